@@ -223,6 +223,11 @@ func AbstractResult(v ssa.Value) string {
 		return renderConst(x)
 	case *ssa.MakeInterface:
 		// error values constructed from concrete types are non-nil
+		if u, ok := x.X.(*ssa.UnOp); ok && u.Op == token.MUL {
+			if g, ok := u.X.(*ssa.Global); ok && (strings.HasPrefix(g.Name(), "Err") || strings.HasPrefix(g.Name(), "err")) {
+				return "nonnil:" + g.Name()
+			}
+		}
 		return "nonnil:" + typeShortNoPtr(x.X.Type())
 	case *ssa.Call:
 		n := calleeName(&x.Call)
